@@ -212,6 +212,83 @@ __attribute__((noinline)) void run_ops(long id, const char *rname, const char *u
     printf("]}\n");
 }
 
+// ---- scalars of a type other than the rep --------------------------------------------------------------
+// q*s, s*q, q/s and the compound q*=s, q/=s with a scalar of type S != R: the reference is the very same raw expression on R and S
+// (the raw binary operator computes in the common type of R and S; the raw compound operator computes there and converts back to R).
+template <typename R, typename S, bool Flt = std::is_floating_point<decltype(std::declval<R>() * std::declval<S>())>::value>
+struct MixedRawUB {
+    using C = decltype(std::declval<R>() * std::declval<S>());
+    static bool fits(i128 v) { return v >= (i128)std::numeric_limits<C>::lowest() && v <= (i128)std::numeric_limits<C>::max(); }
+    static bool mul(R a, S b) { return std::is_signed<C>::value && !fits((i128)(C)a * (i128)(C)b); }
+    static bool div(R a, S b) { return (C)b == 0 || (std::is_signed<C>::value && (C)a == std::numeric_limits<C>::lowest() && (i128)(C)b == -1); }
+};
+template <typename R, typename S>
+struct MixedRawUB<R, S, true> {
+    static bool mul(R, S) { return false; }
+    static bool div(R, S) { return false; }
+};
+// compound forms: Au refuses integral rep (op)= floating scalar by design; everything else must behave like the raw compound operator
+template <typename U, typename R, typename S, bool Allowed = !(std::is_integral<R>::value && std::is_floating_point<S>::value)>
+struct MixedCompound {
+    static void run(R la, S lb, R a, R b) {
+        using C = decltype(std::declval<R>() * std::declval<S>());
+        // the conversion back to R must be value-preserving or at least defined: skip results a floating->integral or
+        // narrowing floating conversion could not hold
+        if (!MixedRawUB<R, S>::mul(la, lb)) {
+            const C pr = (C)la * (C)lb;
+            if (!std::is_floating_point<C>::value || (std::isfinite((ld)pr) && std::fabs((ld)pr) < (ld)std::numeric_limits<R>::max() / 2)) {
+                auto q = au::make_quantity<U>(la); R r = la; r *= lb; VF_CMP("q*=s(mixed)", (q *= lb, q.in(U{})), r);
+            }
+        }
+        if (!MixedRawUB<R, S>::div(la, lb)) {
+            const C qu = (C)la / (C)lb;
+            if (!std::is_floating_point<C>::value || (std::isfinite((ld)qu) && std::fabs((ld)qu) < (ld)std::numeric_limits<R>::max() / 2)) {
+                auto q = au::make_quantity<U>(la); R r = la; r /= lb; VF_CMP("q/=s(mixed)", (q /= lb, q.in(U{})), r);
+            }
+        }
+    }
+};
+template <typename U, typename R, typename S>
+struct MixedCompound<U, R, S, false> {
+    static void run(R, S, R, R) {}
+};
+template <typename U, typename R, typename S>
+__attribute__((noinline)) void run_mixed_scalar(long id, const char *rname, const char *sname, u64 nrandom, u64 seed) {
+    g_st.clear();
+    vf::g_inst = id;
+    static std::vector<R> va; static std::vector<S> vb;
+    va = operands<R>(nrandom, seed, std::is_floating_point<R>{});
+    vb = operands<S>(nrandom, seed + 5, std::is_floating_point<S>{});
+    // scalars that the rep cannot hold exactly (the raw operators use them as they are)
+    { const ld extra[] = {0.1L, 2.5L, 1e-3L, 3.0L, 258.0L, 4294967298.0L, 16777217.0L, 9007199254740993.0L, -3.0L, 1.0L / 3.0L};
+      for (ld e : extra) if (e >= (ld)std::numeric_limits<S>::lowest() && e <= (ld)std::numeric_limits<S>::max() && (std::is_floating_point<S>::value || e == std::floor(e))) vb.push_back((S)e); }
+    static const R *pa; static const S *pb; static size_t nb;
+    pa = va.data(); pb = vb.data(); nb = vb.size();
+    const u64 partners = 24;
+    using QR = typename decltype(std::declval<au::Quantity<U, R>>() * std::declval<S>())::Rep;
+    using RR = decltype(std::declval<R>() * std::declval<S>());
+    using QD = typename decltype(std::declval<au::Quantity<U, R>>() / std::declval<S>())::Rep;
+    using RD = decltype(std::declval<R>() / std::declval<S>());
+    printf("{\"ev\":\"rtype\",\"rep\":\"%s\",\"unit\":\"%s\",\"op\":\"q*s(S=%s)\",\"same\":%d,\"got\":\"%s\",\"want\":\"%s\"}\n", typeid(R).name(), typeid(U).name(), sname, (int)std::is_same<QR, RR>::value, typeid(QR).name(), typeid(RR).name());
+    printf("{\"ev\":\"rtype\",\"rep\":\"%s\",\"unit\":\"%s\",\"op\":\"q/s(S=%s)\",\"same\":%d,\"got\":\"%s\",\"want\":\"%s\"}\n", typeid(R).name(), typeid(U).name(), sname, (int)std::is_same<QD, RD>::value, typeid(QD).name(), typeid(RD).name());
+    vf::run_loop(0, va.size() * partners, [&](u64 idx) {
+        const R a = pa[idx / partners];
+        const S sb = pb[((idx / partners) * 7 + (idx % partners) * 31 + 1) % nb];
+        const R b = (R)sb;  // witness only (the scalar, shown in the rep type)
+        { u64 x = 0, y = 0; memcpy(&x, &a, sizeof(R) < 8 ? sizeof(R) : 8); memcpy(&y, &sb, sizeof(S) < 8 ? sizeof(S) : 8); vf::g_aux0 = x; vf::g_aux1 = y; }
+        const R la = vf::launder(a); const S lb = vf::launder(sb);
+        auto qa = au::make_quantity<U>(la);
+        if (!MixedRawUB<R, S>::mul(la, lb)) { VF_CMP("q*s(mixed)", (qa * lb).in(U{}), la * lb); VF_CMP("s*q(mixed)", (lb * qa).in(U{}), lb * la); } else g_st.skipped_raw_ub++;
+        if (!MixedRawUB<R, S>::div(la, lb)) VF_CMP("q/s(mixed)", (qa / lb).in(U{}), la / lb); else g_st.skipped_raw_ub++;
+        MixedCompound<U, R, S>::run(la, lb, a, b);
+    });
+    printf("{\"ev\":\"ops\",\"id\":%ld,\"rep\":\"%s\",\"unit\":\"scalar %s\",\"evals\":%llu,\"pairs\":%llu,\"skipped_raw_ub\":%llu,\"mm\":%llu,\"wit\":[", id, rname, sname,
+           (unsigned long long)g_st.evals, (unsigned long long)(va.size() * partners), (unsigned long long)g_st.skipped_raw_ub, (unsigned long long)g_st.mm);
+    for (int i = 0; i < g_st.nwit; ++i)
+        printf("%s{\"op\":\"%s\",\"a\":\"%s\",\"b\":\"%s\",\"got\":\"%s\",\"want\":\"%s\"}", i ? "," : "", g_st.wit[i].op, g_st.wit[i].a, g_st.wit[i].b, g_st.wit[i].got, g_st.wit[i].want);
+    printf("]}\n");
+}
+
 // ---- round trip over bit patterns -----------------------------------------------------------------
 template <typename U, typename R, typename Bitsrc>
 __attribute__((noinline)) void run_roundtrip(long id, const char *rname, u64 start, u64 count, u64 stride, u64 seed, int mode) {
